@@ -46,6 +46,10 @@ def build(backend, tier):
         add(f"bare:{name}", f"ds.Select(lambda e: {p})")
         add(f"with-total:{name}", f"ds.Select(lambda e: ({S}.Count(), {p}))")
         add(f"total-first:{name}", f"ds.Select(lambda e: ({p}, {S}.Count()))")
+        add(f"if-test:{name}", f"ds.Select(lambda e: (1 if {p} > 0 else 2))")
+        add(f"if-test-tuple:{name}", f"ds.Select(lambda e: ((1 if {p} > 0 else 2), {S}.Count()))")
+        add(f"if-test-arith:{name}", f"ds.Select(lambda e: (1 if {p} > 0 else 2) + {S}.Count())")
+        add(f"where-test:{name}", f"ds.Where(lambda e: {p} > 0).Select(lambda e: {S}.Count())")
         for g in sorted(set(good + weak_guards)):
             add(f"and:{name}", f"ds.Select(lambda e: ({g} and {p} > 0))")
             add(f"or-not:{name}", f"ds.Select(lambda e: ((not {g}) or {p} > 0))")
@@ -70,6 +74,8 @@ def build(backend, tier):
         add(f"el-bare:{name}", f"ds.Select(lambda e: {S}.Select(lambda j: {p}))")
         add(f"el-rows:{name}", f"ds.SelectMany(lambda e: {S}).Select(lambda j: {p})")
         add(f"el-count-only:{name}", f"ds.Select(lambda e: {S}.Where(lambda j: {p} > 0).Count())")
+        add(f"el-if-test:{name}", f"ds.Select(lambda e: {S}.Select(lambda j: (1 if {p} > 0 else 2)))")
+        add(f"el-if-test-tuple:{name}", f"ds.SelectMany(lambda e: {S}).Select(lambda j: ((1 if {p} > 0 else 2), j.pt()))")
         for g in sorted(set(list(good) + el_weak)):
             add(f"el-and:{name}", f"ds.Select(lambda e: {S}.Select(lambda j: ({g} and {p} > 0)))")
             add(f"el-or-not:{name}", f"ds.Select(lambda e: {S}.Select(lambda j: ((not {g}) or {p} > 0)))")
